@@ -42,7 +42,6 @@ DEC = [
     H("dec::fixed_", functions=DEC_FUNCS, bounds="fixed size 0..=4 x all byte strings of length <= 5"),
     H("dec::enum_", functions=DEC_FUNCS, bounds="3 symbols x all byte strings of length <= 3"),
     H("dec2::union_", functions=DEC_FUNCS, bounds="union[null,long,boolean], branch index 0..2 concrete x all 2-byte tails x cut in 1..=3"),
-    H("dec2::union_oob", tier="thorough", functions=DEC_FUNCS, bounds="union[null,long,boolean], branch index 3 (out of range) x all 2-byte tails x cut"),
     H("dec2::record_", functions=DEC_FUNCS, bounds="record{a:long,b:boolean} x all byte strings of length <= 3"),
     H("dec2::duration_", functions=DEC_FUNCS, bounds="all byte strings of length <= 13"),
     H("dec2::array_two_blocks_of_three", functions=DEC_FUNCS + ["decode::decode_seq_len", "util::safe_collection_len"], fs=164, extra=["--no-pointer-check"],
